@@ -73,7 +73,10 @@ def dollar_quote_literal(text: str) -> str:
     quote = '$$'
     qq = 0
 
-    while quote in text:
+    # The closing quote must be the first occurrence of the delimiter in
+    # `text + quote`: text that merely *ends* with a prefix of the
+    # delimiter (e.g. a trailing `$`) would otherwise close the quote early.
+    while quote in text + quote[:-1]:
         if qq % 16 < 10:
             qq += 10 - qq % 16
 
